@@ -93,3 +93,13 @@ Proof.
   rewrite ctr_total, vals_total, samp_total, mem_total.
   repeat split; f_equal; apply list_fmap_ext; intros i m _; by rewrite cnt_components.
 Qed.
+
+(* ---- what Corr/C01.v computes: the input content as one sequentially built map, the flushed
+   total as the model's MergeMaps of the captured maps ---- *)
+Lemma corr_input_content ds k : cnt (receive_all empty_map ds) k = total dp_cnt ds k.
+Proof. by rewrite cnt_receive_all, cnt_empty_map, content_unit_l. Qed.
+
+Lemma corr_flushed_content ms k : cnt (merge_maps ms) k = total cnt ms k.
+Proof.
+  unfold cnt at 1, total. rewrite abs_merge_maps, content_at_sum, <- list_fmap_compose. reflexivity.
+Qed.
